@@ -943,13 +943,14 @@ func ruleSyncMapLock(c *Ctx, rule string, pkgFilter func(string) bool) {
 	n := 0
 	for _, fn := range l.RepoFuncs(pkgFilter) {
 		fn := fn
+		lockNames := []string{"Lock", "RLock"}
 		lockedAt := func(base ssa.Value, at ssa.Instruction) bool {
 			ok := false
 			eachInstr(fn, func(ins ssa.Instruction) {
 				if _, isDefer := ins.(*ssa.Defer); isDefer {
 					return
 				}
-				b, is := lockBase(ins, "Lock", "RLock")
+				b, is := lockBase(ins, lockNames...)
 				if !is || !(b == base || exprEq(b, base)) || !instrDominates(ins, at) {
 					return
 				}
@@ -1018,6 +1019,17 @@ func ruleSyncMapLock(c *Ctx, rule string, pkgFilter func(string) bool) {
 			}
 			walk(ld, 0)
 			uses = append(uses, ld)
+			// updates of the map need the write lock: a reader's lock admits other readers
+			for _, u := range uses {
+				if mu, isUpd := u.(*ssa.MapUpdate); isUpd {
+					lockNames = []string{"Lock"}
+					held := lockedAt(base, mu)
+					lockNames = []string{"Lock", "RLock"}
+					n++
+					c.Check(rule, fmt.Sprintf("%s | update of the map of %s", fnName(fn), describe(base)), l.Pos(mu.Pos()), held, "under the SyncMap's write lock",
+						"the SyncMap's map is updated without the write lock held (a read lock admits other readers and writers of the same kind): concurrent map writes")
+				}
+			}
 			var bad []string
 			for _, u := range uses {
 				if phi, isPhi := u.(*ssa.Phi); isPhi {
@@ -1044,6 +1056,54 @@ func ruleSyncMapLock(c *Ctx, rule string, pkgFilter func(string) bool) {
 			n++
 			c.Check(rule, fmt.Sprintf("%s | map of %s", fnName(fn), describe(base)), l.Pos(ld.Pos()), len(bad) == 0, "read and used under the SyncMap's lock",
 				"the SyncMap's map is read or used at "+strings.Join(bad, ", ")+" without the SyncMap's lock held (released before the use, or never taken): concurrent map iteration and map write with a script or host that updates the SyncMap")
+		})
+	}
+	// stores to the Value field itself (initialising a zero SyncMap in place)
+	for _, fn := range l.RepoFuncs(pkgFilter) {
+		fn := fn
+		eachInstr(fn, func(ins ssa.Instruction) {
+			st, ok := ins.(*ssa.Store)
+			if !ok {
+				return
+			}
+			fa, ok := st.Addr.(*ssa.FieldAddr)
+			if !ok || fa.Field != fValue || !isSM(fa.X) {
+				return
+			}
+			base := strip(fa.X)
+			if _, fresh := base.(*ssa.Alloc); fresh {
+				return
+			}
+			// the codec's shim type (encoder.SyncMap) is a decoding target that nothing shares yet
+			if pt, ok := base.Type().Underlying().(*types.Pointer); !ok || !isNamed(pt.Elem(), modPath, "SyncMap") {
+				return
+			}
+			held := false
+			eachInstr(fn, func(lk ssa.Instruction) {
+				if _, isDefer := lk.(*ssa.Defer); isDefer {
+					return
+				}
+				b, is := lockBase(lk, "Lock")
+				if !is || !(b == base || exprEq(b, base)) || !instrDominates(lk, st) {
+					return
+				}
+				released := false
+				eachInstr(fn, func(u ssa.Instruction) {
+					if _, isDefer := u.(*ssa.Defer); isDefer {
+						return
+					}
+					ub, is := lockBase(u, "Unlock")
+					if is && (ub == base || exprEq(ub, base)) && instrDominates(lk, u) && instrDominates(u, st) {
+						released = true
+					}
+				})
+				if !released {
+					held = true
+				}
+			})
+			n++
+			c.Check(rule, fmt.Sprintf("%s | store to the map field of %s", fnName(fn), describe(base)), l.Pos(st.Pos()), held, "under the SyncMap's write lock",
+				"the Value field of a shared SyncMap is assigned without the write lock held (under the read lock at most, which admits other readers doing the same): a data race on the field between VMs that share the SyncMap (a module constant, a global)")
 		})
 	}
 	if n == 0 {
